@@ -1062,6 +1062,15 @@ Lemma edge_of_eval a nodes i j x y ni nj :
     else [].
 Proof. intros Hx Hy Hi Hj. unfold edge_of. cbn [fst snd]. rewrite Hx, Hy, Hi, Hj. reflexivity. Qed.
 
+(** [e'] is the stored form of the edge [e0] the loop asked for: the same edge, or (the
+    time-series class, undirected edges only) the same edge with its endpoints exchanged *)
+Definition sim (e' e0 : edge) : Prop :=
+  ety e' = ety e0
+  /\ (edge_key e' = edge_key e0 \/ (ety e0 = Und /\ edge_key e' = (edst e0, esrc e0))).
+
+Lemma sim_refl e : sim e e.
+Proof. split; [reflexivity|left; reflexivity]. Qed.
+
 Section RoundTrip.
   Variable parse : name -> option (name * Z).
   Variable k : kind.
@@ -1076,8 +1085,12 @@ Section RoundTrip.
     dims n a /\ (forall i j, i < n -> j < n -> entry a i j = Some 0%Z \/ entry a i j = Some 1%Z).
   Hypothesis Hentry : entry_spec g a names.
 
+  (** the rebuilt graph holds exactly the edges of the upper-triangle scan, up to [sim] *)
   Variable g' : graph.
-  Hypothesis Hsrc : gsrc g' = flat_map (edge_of a names) (pairs n).
+  Hypothesis Hback : forall e', In e' (gsrc g') ->
+    exists i j e0, i < j /\ j < n /\ In e0 (edge_of a names (i, j)) /\ sim e' e0.
+  Hypothesis Hforth : forall i j e0, i < j -> j < n -> In e0 (edge_of a names (i, j)) ->
+    exists e', In e' (gsrc g') /\ sim e' e0.
 
   Lemma rt_cell i j :
     i < n -> j < n ->
@@ -1095,21 +1108,13 @@ Section RoundTrip.
       (split; [exact Hx|]); (split; [exact Hy|]); auto.
   Qed.
 
-  Lemma rt_in_g' e' :
-    In e' (gsrc g') <-> exists i j, i < j /\ j < n /\ In e' (edge_of a names (i, j)).
+  (** every edge the scan asks for is an edge of the original *)
+  Lemma rt_back0 i j e0 :
+    i < j -> j < n -> In e0 (edge_of a names (i, j)) ->
+    (ety e0 = Dir /\ has_edge g (esrc e0) (edst e0) Dir)
+    \/ (ety e0 = Und /\ (has_edge g (esrc e0) (edst e0) Und \/ has_edge g (edst e0) (esrc e0) Und)).
   Proof.
-    rewrite Hsrc, in_flat_map. split.
-    - intros ([i j] & Hp & He). apply in_pairs in Hp. exists i, j. repeat split; try lia. exact He.
-    - intros (i & j & Hij & Hj & He). exists (i, j). split; [apply in_pairs; lia|exact He].
-  Qed.
-
-  (** every edge of the rebuilt graph is an edge of the original *)
-  Lemma rt_back e' :
-    In e' (gsrc g') ->
-    (ety e' = Dir /\ has_edge g (esrc e') (edst e') Dir)
-    \/ (ety e' = Und /\ (has_edge g (esrc e') (edst e') Und \/ has_edge g (edst e') (esrc e') Und)).
-  Proof.
-    intros He. apply rt_in_g' in He. destruct He as (i & j & Hij & Hj & He).
+    intros Hij Hj He.
     assert (Hi : i < n) by lia.
     destruct (rt_cell Hi Hj) as (ni & nj & x & y & Hni & Hnj & Hx & Hy & Hxb & Hyb).
     rewrite (edge_of_eval _ _ _ _ Hx Hy Hni Hnj) in He.
@@ -1121,6 +1126,21 @@ Section RoundTrip.
       apply (@entries_dir g a names Hentry i j ni nj Hni Hnj Hx). rewrite Hy. discriminate.
     - destruct He as [<-|[]]. right. split; [reflexivity|]. simpl.
       apply (@entries_und parse k g a names HI Hentry i j ni nj Hni Hnj Hx Hy).
+  Qed.
+
+  (** every edge of the rebuilt graph is an edge of the original *)
+  Lemma rt_back e' :
+    In e' (gsrc g') ->
+    (ety e' = Dir /\ has_edge g (esrc e') (edst e') Dir)
+    \/ (ety e' = Und /\ (has_edge g (esrc e') (edst e') Und \/ has_edge g (edst e') (esrc e') Und)).
+  Proof.
+    intros He. destruct (Hback e' He) as (i & j & e0 & Hij & Hj & He0 & Ht & Hk).
+    unfold edge_key in Hk.
+    destruct (@rt_back0 i j e0 Hij Hj He0) as [[Hd H]|[Hu H]].
+    - left. rewrite Ht. split; [exact Hd|].
+      destruct Hk as [Hk|[Hc _]]; [|congruence]. injection Hk as -> ->. exact H.
+    - right. rewrite Ht. split; [exact Hu|].
+      destruct Hk as [Hk|[_ Hk]]; injection Hk as -> ->; tauto.
   Qed.
 
   (** every edge of the original is an edge of the rebuilt graph, an undirected one possibly
@@ -1139,31 +1159,35 @@ Section RoundTrip.
     assert (Hij : i <> j).
     { intros ->. apply (inv_noloop HI e He). congruence. }
     destruct Hshape as [_ Hb].
-    assert (Hin : forall i0 j0 e0, i0 < j0 -> j0 < n -> In e0 (edge_of a names (i0, j0)) ->
-                                   In e0 (gsrc g')).
-    { intros i0 j0 e0 H1 H2 H3. apply rt_in_g'. exists i0, j0. auto. }
+    (* the stored form of a requested edge *)
+    assert (Hdir : forall i0 j0 s d, i0 < j0 -> j0 < n -> In (mk_edge s d Dir) (edge_of a names (i0, j0)) ->
+                                     has_edge g' s d Dir).
+    { intros i0 j0 s d H1 H2 H3. destruct (@Hforth i0 j0 _ H1 H2 H3) as (e' & He' & Ht & Hk).
+      exists e'. split; [exact He'|]. split; [|exact Ht].
+      destruct Hk as [Hk|[Hc _]]; [exact Hk|discriminate]. }
+    assert (Hund : forall i0 j0 s d, i0 < j0 -> j0 < n -> In (mk_edge s d Und) (edge_of a names (i0, j0)) ->
+                                     has_edge g' s d Und \/ has_edge g' d s Und).
+    { intros i0 j0 s d H1 H2 H3. destruct (@Hforth i0 j0 _ H1 H2 H3) as (e' & He' & Ht & Hk).
+      destruct Hk as [Hk|[_ Hk]]; [left|right]; exists e'; auto. }
     split; intros Hty.
     - assert (Hh : has_edge g (esrc e) (edst e) Dir) by (exists e; auto).
       destruct (@dir_entries parse k g a names HI Hentry i j _ _ Hni Hnj Hh) as [H1 H0].
       assert (H0' : entry a j i = Some 0%Z) by (destruct (Hb j i Hj Hi); [assumption|contradiction]).
-      exists (mk_edge (esrc e) (edst e) Dir). split; [|split; reflexivity].
       destruct (Nat.lt_ge_cases i j) as [Hlt|Hge].
-      + apply (Hin i j); [exact Hlt|exact Hj|].
+      + apply (Hdir i j); [exact Hlt|exact Hj|].
         rewrite (edge_of_eval _ _ _ _ H1 H0' Hni Hnj). simpl. left; reflexivity.
-      + apply (Hin j i); [lia|exact Hi|].
+      + apply (Hdir j i); [lia|exact Hi|].
         rewrite (edge_of_eval _ _ _ _ H0' H1 Hnj Hni). simpl. left; reflexivity.
     - assert (Hh : has_edge g (esrc e) (edst e) Und) by (exists e; auto).
       destruct (@und_entries g a names Hentry i j _ _ Hni Hnj Hh) as [H1 H2].
       destruct (Nat.lt_ge_cases i j) as [Hlt|Hge].
-      + left. exists (mk_edge (esrc e) (edst e) Und). split; [|split; reflexivity].
-        apply (Hin i j); [exact Hlt|exact Hj|].
+      + apply (Hund i j); [exact Hlt|exact Hj|].
         rewrite (edge_of_eval _ _ _ _ H1 H2 Hni Hnj). simpl. left; reflexivity.
-      + right. exists (mk_edge (edst e) (esrc e) Und). split; [|split; reflexivity].
-        apply (Hin j i); [lia|exact Hi|].
+      + apply or_comm. apply (Hund j i); [lia|exact Hi|].
         rewrite (edge_of_eval _ _ _ _ H2 H1 Hnj Hni). simpl. left; reflexivity.
   Qed.
 
-  Hypothesis Hids : node_ids g' = names.
+  Hypothesis Hids : forall x, In x (node_ids g') <-> In x names.
 
   Lemma rt_same_graph : same_graph g g'.
   Proof.
@@ -1186,6 +1210,22 @@ Section RoundTrip.
   Qed.
 End RoundTrip.
 
+(** the exact edge list of the plain class satisfies the two scan hypotheses *)
+Lemma scan_of_src a names g' :
+  gsrc g' = flat_map (edge_of a names) (pairs (length names)) ->
+  (forall e', In e' (gsrc g') ->
+     exists i j e0, i < j /\ j < length names /\ In e0 (edge_of a names (i, j)) /\ sim e' e0)
+  /\ (forall i j e0, i < j -> j < length names -> In e0 (edge_of a names (i, j)) ->
+        exists e', In e' (gsrc g') /\ sim e' e0).
+Proof.
+  intros Hsrc. split.
+  - intros e' He'. rewrite Hsrc in He'. apply in_flat_map in He'.
+    destruct He' as ([i j] & Hp & He). apply in_pairs in Hp.
+    exists i, j, e'. repeat split; try lia; try exact He. left; reflexivity.
+  - intros i j e0 Hij Hj He0. exists e0. split; [|apply sim_refl].
+    rewrite Hsrc. apply in_flat_map. exists (i, j). split; [apply in_pairs; lia|exact He0].
+Qed.
+
 (** [from_adjacency_matrix] applied to the two results of [g.to_numpy()] with validate=False succeeds and equals [g]
     (whatever class [g] itself has; the rebuilt graph is a plain one) *)
 Theorem matrix_roundtrip_novalidate parse fmt k g a names :
@@ -1202,8 +1242,10 @@ Proof.
   - symmetry; exact Hla.
   - apply (v_node_names_nodup HI).
   - exists g'. split; [exact Hg'|]. split; [exact Hids|].
+    destruct (scan_of_src _ _ _ Hsrc) as [Hback Hforth].
     apply (@rt_same_graph parse k g a (v_node_names g) HI Honly (v_node_names_in g)
-             (conj Hd Hb) (matrix_entry HI Ha) g' Hsrc Hids).
+             (conj Hd Hb) (matrix_entry HI Ha) g' Hback Hforth).
+    intros x. rewrite Hids. reflexivity.
 Qed.
 
 (** * General facts about the construction (both classes) *)
@@ -1548,8 +1590,10 @@ Proof.
   - symmetry. apply Hd.
   - exact Hnd.
   - exists g'. split; [exact Hg'|]. split; [exact Hids|].
+    destruct (scan_of_src _ _ _ Hsrc) as [Hback Hforth].
     apply (@rt_same_graph parse k g (nx_to_matrix x) (nx_nodes x) HI Honly Hnames
-             (conj Hd Hb) Hentry g' Hsrc Hids).
+             (conj Hd Hb) Hentry g' Hback Hforth).
+    intros y. rewrite Hids. reflexivity.
 Qed.
 
 Section WithGraphInvNx.
@@ -1577,6 +1621,415 @@ Section WithGraphInvNx.
     exfalso. apply (Hac' d). apply Hiff. reflexivity.
   Qed.
 End WithGraphInvNx.
+
+(** * Both classes: adding the nodes and one edge *)
+
+Lemma lookup_meta_set_eq k v m : lookup k (meta_set k v m) = Some v.
+Proof.
+  induction m as [|[k' v'] m IH]; simpl.
+  - rewrite name_eqb_refl. reflexivity.
+  - destruct (name_eqb_spec k k') as [->|Hn]; simpl.
+    + rewrite name_eqb_refl. reflexivity.
+    + destruct (name_ltb k k'); simpl.
+      * rewrite name_eqb_refl. reflexivity.
+      * destruct (name_eqb_spec k k'); [contradiction|exact IH].
+Qed.
+
+Lemma lookup_meta_set_neq k k2 v m : k2 <> k -> lookup k2 (meta_set k v m) = lookup k2 m.
+Proof.
+  intros Hn. induction m as [|[k' v'] m IH]; simpl.
+  - destruct (name_eqb_spec k2 k); [contradiction|reflexivity].
+  - destruct (name_eqb_spec k k') as [->|Hn']; simpl.
+    + destruct (name_eqb_spec k2 k'); [contradiction|reflexivity].
+    + destruct (name_ltb k k'); simpl.
+      * destruct (name_eqb_spec k2 k); [contradiction|reflexivity].
+      * destruct (name_eqb k2 k'); [reflexivity|exact IH].
+Qed.
+
+Lemma set_tags_var v l m : meta_var (set_tags v l m) = Some v.
+Proof. unfold meta_var, meta_get, set_tags. rewrite lookup_meta_set_eq. reflexivity. Qed.
+
+Lemma set_tags_lag v l m : meta_lag (set_tags v l m) = Some l.
+Proof.
+  unfold meta_lag, meta_get, set_tags.
+  rewrite lookup_meta_set_neq; [|vm_compute; discriminate].
+  rewrite lookup_meta_set_eq. reflexivity.
+Qed.
+
+Lemma find_node_app id l1 l2 :
+  find_node id (l1 ++ l2)
+  = match find_node id l1 with Some n => Some n | None => find_node id l2 end.
+Proof.
+  induction l1 as [|x l1 IH]; simpl; [reflexivity|].
+  destruct (name_eqb id (nid x)); [reflexivity|exact IH].
+Qed.
+
+Lemma find_node_update f id x ns :
+  (forall n, nid (f n) = nid n) ->
+  find_node x (update_node f id ns)
+  = match find_node x ns with
+    | Some n => Some (if name_eqb id (nid n) then f n else n)
+    | None => None
+    end.
+Proof.
+  intros Hf. induction ns as [|n ns IH]; simpl; [reflexivity|].
+  destruct (name_eqb id (nid n)) eqn:E.
+  - rewrite Hf. destruct (name_eqb x (nid n)); [rewrite E; reflexivity|exact IH].
+  - destruct (name_eqb x (nid n)); [rewrite E; reflexivity|exact IH].
+Qed.
+
+Lemma insert_edge_lag g e x : node_lag (insert_edge g e) x = node_lag g x.
+Proof.
+  unfold node_lag, get_node, insert_edge; simpl.
+  destruct (etype_eqb (ety e) Dir); [|reflexivity].
+  rewrite !find_node_update by (intros n; reflexivity).
+  destruct (find_node x (gnodes g)) as [n|]; [|reflexivity].
+  destruct (name_eqb (edst e) (nid n)); simpl; destruct (name_eqb (esrc e) _); reflexivity.
+Qed.
+
+Section AnyClass.
+  Variable parse : name -> option (name * Z).
+  Variable fmt : name -> Z -> option name.
+  Variable k : kind.
+
+  Definition has_lag (g : graph) (x : name) : Prop := exists l, node_lag g x = Some l.
+
+  Lemma add_node_any g id :
+    ~ In id (node_ids g) -> (k = TS -> exists v l, parse id = Some (v, l)) ->
+    exists g', add_node_id parse k g id VUnspec None = Ok g'
+               /\ node_ids g' = node_ids g ++ [id] /\ gsrc g' = gsrc g
+               /\ (k = TS -> has_lag g' id)
+               /\ (forall x, In x (node_ids g) -> node_lag g' x = node_lag g x)
+               /\ (k = TS -> forall v l, parse id = Some (v, l) -> node_lag g' id = Some l).
+  Proof.
+    intros Hfresh Hparse.
+    assert (Hne : node_exists g id = false)
+      by (apply not_true_is_false; rewrite node_exists_in; exact Hfresh).
+    assert (Hold : forall n x, nid n = id -> In x (node_ids g) ->
+              match find_node x (gnodes g ++ [n]) with
+              | Some n0 => meta_lag (nmeta n0) | None => None end
+              = match find_node x (gnodes g) with
+                | Some n0 => meta_lag (nmeta n0) | None => None end).
+    { intros n x Hn Hx. rewrite find_node_app.
+      destruct (find_node x (gnodes g)) as [n0|] eqn:E; [reflexivity|].
+      apply find_node_none in E. contradiction. }
+    unfold add_node_id. destruct k.
+    - rewrite Hne. cbn [mk_node bind]. eexists. split; [reflexivity|].
+      split; [unfold node_ids, push_node; simpl; rewrite map_app; reflexivity|].
+      split; [reflexivity|]. split; [discriminate|]. split; [|discriminate].
+      intros x Hx. unfold node_lag, get_node, push_node; simpl. apply Hold; [reflexivity|exact Hx].
+    - destruct (Hparse eq_refl) as (v & l & Hp). unfold mk_node. rewrite Hp. cbn [bind]. rewrite Hne.
+      cbn [nmeta bind]. unfold idx_add. cbn [nmeta nid]. rewrite set_tags_lag, set_tags_var.
+      assert (Hlag : node_lag
+                       {| gnodes := gnodes g ++ [{| nid := id; nvt := VUnspec;
+                                                   nmeta := set_tags v l (set_tags v l []);
+                                                   ninb := []; noutb := [] |}];
+                          gsrc := gsrc g; gdst := gdst g; gmeta := gmeta g;
+                          glag := glag g ++ [(l, id)]; gvar := gvar g ++ [(v, id)] |} id = Some l).
+      { unfold node_lag, get_node; simpl. rewrite find_node_app.
+        replace (find_node id (gnodes g)) with (@None node)
+          by (symmetry; apply find_node_none; exact Hfresh).
+        simpl. rewrite name_eqb_refl. simpl. apply set_tags_lag. }
+      eexists. split; [reflexivity|].
+      split; [unfold node_ids, push_node; simpl; rewrite map_app; reflexivity|].
+      split; [reflexivity|]. split; [|split].
+      + intros _. exists l. exact Hlag.
+      + intros x Hx. unfold node_lag, get_node; simpl. apply Hold; [reflexivity|exact Hx].
+      + intros _ v' l' Hp'. injection Hp' as _ <-. exact Hlag.
+  Qed.
+
+  Lemma add_nodes_any ids : forall g,
+    NoDup ids -> (forall x, In x ids -> ~ In x (node_ids g)) ->
+    (k = TS -> forall x, In x ids -> exists v l, parse x = Some (v, l)) ->
+    exists g', add_nodes_from parse k g ids = (Ok g', g')
+               /\ node_ids g' = node_ids g ++ ids /\ gsrc g' = gsrc g
+               /\ (k = TS -> forall x, In x ids -> has_lag g' x)
+               /\ (forall x, In x (node_ids g) -> node_lag g' x = node_lag g x)
+               /\ (k = TS -> forall x v l, In x ids -> parse x = Some (v, l) -> node_lag g' x = Some l).
+  Proof.
+    unfold add_nodes_from.
+    induction ids as [|id ids IH]; intros g Hnd Hfresh Hparse.
+    - exists g. simpl. rewrite app_nil_r. repeat split; auto; intros _ x; intros; contradiction.
+    - inversion Hnd as [|? ? Hid Hnd']; subst. cbn [fold_left].
+      destruct (@add_node_any g id (Hfresh id (or_introl eq_refl)))
+        as (g1 & Hg1 & Hn1 & Hs1 & Hl1 & Ho1 & Hv1).
+      { intros Hk. apply (Hparse Hk). left; reflexivity. }
+      rewrite Hg1.
+      destruct (IH g1 Hnd') as (g' & Hg' & Hn' & Hs' & Hl' & Ho' & Hv').
+      + intros y Hy. rewrite Hn1, in_app_iff. intros [H|[H|[]]];
+          [apply (Hfresh y (or_intror Hy)); exact H|subst y; contradiction].
+      + intros Hk y Hy. apply (Hparse Hk). right; exact Hy.
+      + assert (Hid1 : In id (node_ids g1)) by (rewrite Hn1, in_app_iff; right; left; reflexivity).
+        exists g'. split; [exact Hg'|]. split; [rewrite Hn', Hn1, <- app_assoc; reflexivity|].
+        split; [congruence|]. split; [|split].
+        * intros Hk x [<-|Hx]; [|apply (Hl' Hk); exact Hx].
+          destruct (Hl1 Hk) as [l Hl]. exists l. rewrite Ho'; [exact Hl|exact Hid1].
+        * intros x Hx. rewrite Ho'; [apply Ho1; exact Hx|]. rewrite Hn1, in_app_iff. left; exact Hx.
+        * intros Hk x v l [<-|Hx] Hp; [|apply (Hv' Hk x v l Hx Hp)].
+          rewrite Ho'; [apply (Hv1 Hk v l Hp)|exact Hid1].
+  Qed.
+
+  (** adding an undirected edge between two existing, not yet joined nodes: the time-series
+      class may store it with its endpoints exchanged, never refuses it *)
+  Lemma add_edge_und_any g s d :
+    In s (node_ids g) -> In d (node_ids g) -> s <> d ->
+    ~ In (s, d) (edge_keys g) -> ~ In (d, s) (edge_keys g) ->
+    (k = TS -> has_lag g s /\ has_lag g d) ->
+    exists s' d', add_edge_op parse fmt k g s d Und = Ok (insert_edge g (mk_edge s' d' Und))
+                  /\ ((s', d') = (s, d) \/ (s', d') = (d, s)).
+  Proof.
+    intros Hs Hd Hne H1 H2 Hlag.
+    unfold add_edge_op, run_op, add_edge, add_edge_try. cbn [fst snd str_ep].
+    apply name_eqb_neq in Hne. rewrite Hne.
+    apply edge_at_none in H1. apply edge_at_none in H2. rewrite H1.
+    unfold add_endpoint, str_ep. cbn [fst snd].
+    rewrite (proj2 (node_exists_in g s) Hs), (proj2 (node_exists_in g d) Hd).
+    unfold orient. destruct k.
+    - exists s, d. unfold set_edge. rewrite H1, H2. split; [reflexivity|left; reflexivity].
+    - destruct (Hlag eq_refl) as [[ls Hls] [ld Hld]]. rewrite Hls, Hld.
+      destruct (ld <? ls)%Z; cbn [etype_eqb].
+      + exists d, s. unfold set_edge. rewrite H2, H1. split; [reflexivity|right; reflexivity].
+      + exists s, d. unfold set_edge. rewrite H1, H2. split; [reflexivity|left; reflexivity].
+  Qed.
+
+  (** adding a directed edge (validate=False) between two existing, not yet joined nodes: the
+      time-series class accepts it exactly when it does not point backwards in time *)
+  Lemma add_edge_dir_any g s d :
+    In s (node_ids g) -> In d (node_ids g) -> s <> d ->
+    ~ In (s, d) (edge_keys g) -> ~ In (d, s) (edge_keys g) ->
+    (k = TS -> exists ls ld, node_lag g s = Some ls /\ node_lag g d = Some ld /\ (ls <= ld)%Z) ->
+    add_edge_op parse fmt k g s d Dir = Ok (insert_edge g (mk_edge s d Dir)).
+  Proof.
+    intros Hs Hd Hne H1 H2 Hlag.
+    unfold add_edge_op, run_op, add_edge, add_edge_try. cbn [fst snd str_ep].
+    apply name_eqb_neq in Hne. rewrite Hne.
+    apply edge_at_none in H1. apply edge_at_none in H2. rewrite H1.
+    unfold add_endpoint, str_ep. cbn [fst snd].
+    rewrite (proj2 (node_exists_in g s) Hs), (proj2 (node_exists_in g d) Hd).
+    unfold orient. destruct k.
+    - unfold set_edge. rewrite H1, H2. reflexivity.
+    - destruct (Hlag eq_refl) as (ls & ld & Hls & Hld & Hle). rewrite Hls, Hld.
+      replace (ld <? ls)%Z with false by (symmetry; apply Z.ltb_ge; exact Hle).
+      unfold set_edge. rewrite H1, H2. reflexivity.
+  Qed.
+End AnyClass.
+
+(** * Both classes: the construction loop and the round trip with the graph's own class *)
+
+Lemma Forall2_in_left {A B} (R : A -> B -> Prop) l1 l2 x :
+  Forall2 R l1 l2 -> In x l1 -> exists y, In y l2 /\ R x y.
+Proof.
+  induction 1 as [|a b l1 l2 Hab _ IH]; intros Hx; [destruct Hx|].
+  destruct Hx as [<-|Hx]; [exists b; split; [left; reflexivity|exact Hab]|].
+  destruct (IH Hx) as (y & Hy & Hr). exists y. split; [right; exact Hy|exact Hr].
+Qed.
+
+Lemma Forall2_in_right {A B} (R : A -> B -> Prop) l1 l2 y :
+  Forall2 R l1 l2 -> In y l2 -> exists x, In x l1 /\ R x y.
+Proof.
+  induction 1 as [|a b l1 l2 Hab _ IH]; intros Hy; [destruct Hy|].
+  destruct Hy as [<-|Hy]; [exists a; split; [left; reflexivity|exact Hab]|].
+  destruct (IH Hy) as (x & Hx & Hr). exists x. split; [right; exact Hx|exact Hr].
+Qed.
+
+Section AnyLoop.
+  Variable parse : name -> option (name * Z).
+  Variable fmt : name -> Z -> option name.
+  Variable k : kind.
+  Variable a : matrix.
+  Variable nodes : list name.
+  Hypothesis Hnodup : NoDup nodes.
+  Hypothesis Hbin : forall i j, i < length nodes -> j < length nodes ->
+                      entry a i j = Some 0%Z \/ entry a i j = Some 1%Z.
+
+  Definition fresh_pairs (g : graph) (P : list (nat * nat)) : Prop :=
+    forall e p ni nj, In e (gsrc g) -> In p P ->
+      nth_error nodes (fst p) = Some ni -> nth_error nodes (snd p) = Some nj ->
+      edge_key e <> (ni, nj) /\ edge_key e <> (nj, ni).
+
+  (** no directed edge the scan asks for points backwards in time *)
+  Definition time_ok (g : graph) (P : list (nat * nat)) : Prop :=
+    k = TS -> forall p e0, In p P -> In e0 (edge_of a nodes p) -> ety e0 = Dir ->
+      exists ls ld, node_lag g (esrc e0) = Some ls /\ node_lag g (edst e0) = Some ld /\ (ls <= ld)%Z.
+
+  Lemma edge_step_any g p :
+    fst p < snd p -> snd p < length nodes ->
+    (forall x, In x nodes -> In x (node_ids g)) ->
+    (k = TS -> forall x, In x nodes -> has_lag g x) ->
+    time_ok g [p] -> fresh_pairs g [p] ->
+    exists g' es,
+      edge_step parse fmt k a nodes (Ok g) p = Ok g'
+      /\ node_ids g' = node_ids g /\ (forall x, node_lag g' x = node_lag g x)
+      /\ gsrc g' = gsrc g ++ es /\ Forall2 sim es (edge_of a nodes p).
+  Proof.
+    intros Hlt Hj Hin Hlag Htime Hfresh.
+    assert (Hi : fst p < length nodes) by lia.
+    destruct (nth_error nodes (fst p)) as [ni|] eqn:Eni; [|apply nth_error_None in Eni; lia].
+    destruct (nth_error nodes (snd p)) as [nj|] eqn:Enj; [|apply nth_error_None in Enj; lia].
+    assert (Hne : ni <> nj).
+    { intros ->. assert (fst p = snd p) by (eapply nodup_nth_inj; eassumption). lia. }
+    assert (Hni : In ni (node_ids g)) by (apply Hin; eapply nth_error_In; exact Eni).
+    assert (Hnj : In nj (node_ids g)) by (apply Hin; eapply nth_error_In; exact Enj).
+    assert (Hk1 : ~ In (ni, nj) (edge_keys g)).
+    { unfold edge_keys. rewrite in_map_iff. intros (e & Hk & He).
+      destruct (Hfresh e p ni nj He (or_introl eq_refl) Eni Enj) as [H _]. contradiction. }
+    assert (Hk2 : ~ In (nj, ni) (edge_keys g)).
+    { unfold edge_keys. rewrite in_map_iff. intros (e & Hk & He).
+      destruct (Hfresh e p ni nj He (or_introl eq_refl) Eni Enj) as [_ H]. contradiction. }
+    assert (Heo : edge_of a nodes p = edge_of a nodes (fst p, snd p)) by (destruct p; reflexivity).
+    assert (Htime' : k = TS -> forall e0, In e0 (edge_of a nodes p) -> ety e0 = Dir ->
+              exists ls ld, node_lag g (esrc e0) = Some ls /\ node_lag g (edst e0) = Some ld /\ (ls <= ld)%Z)
+      by (intros Hk e0; apply (Htime Hk p e0); left; reflexivity).
+    clear Htime. rewrite Heo in Htime'.
+    unfold edge_step. cbn [bind]. rewrite Heo. unfold edge_of in *. cbn [fst snd] in *.
+    rewrite Eni, Enj in *.
+    destruct (Hbin Hi Hj) as [Hx|Hx]; destruct (Hbin Hj Hi) as [Hy|Hy]; rewrite Hx, Hy in *;
+      cbn [Z.eqb negb andb] in *.
+    - exists g, []. rewrite app_nil_r. repeat split; auto.
+    - rewrite (@add_edge_dir_any parse fmt k g nj ni Hnj Hni (not_eq_sym Hne) Hk2 Hk1).
+      + exists (insert_edge g (mk_edge nj ni Dir)), [mk_edge nj ni Dir].
+        split; [reflexivity|]. split; [apply insert_edge_ids|]. split; [apply insert_edge_lag|].
+        split; [apply insert_edge_src|]. constructor; [apply sim_refl|constructor].
+      + intros Hk. apply (Htime' Hk (mk_edge nj ni Dir)); [left; reflexivity|reflexivity].
+    - rewrite (@add_edge_dir_any parse fmt k g ni nj Hni Hnj Hne Hk1 Hk2).
+      + exists (insert_edge g (mk_edge ni nj Dir)), [mk_edge ni nj Dir].
+        split; [reflexivity|]. split; [apply insert_edge_ids|]. split; [apply insert_edge_lag|].
+        split; [apply insert_edge_src|]. constructor; [apply sim_refl|constructor].
+      + intros Hk. apply (Htime' Hk (mk_edge ni nj Dir)); [left; reflexivity|reflexivity].
+    - destruct (@add_edge_und_any parse fmt k g ni nj Hni Hnj Hne Hk1 Hk2) as (s' & d' & Hadd & Hsd).
+      { intros Hk. split; apply (Hlag Hk); eapply nth_error_In; eassumption. }
+      rewrite Hadd. exists (insert_edge g (mk_edge s' d' Und)), [mk_edge s' d' Und].
+      split; [reflexivity|]. split; [apply insert_edge_ids|]. split; [apply insert_edge_lag|].
+      split; [apply insert_edge_src|]. constructor; [|constructor].
+      split; [reflexivity|]. unfold edge_key; simpl.
+      destruct Hsd as [Hsd|Hsd]; [left; exact Hsd|right; split; [reflexivity|exact Hsd]].
+  Qed.
+
+  Lemma sim_joins e' e0 p :
+    sim e' e0 -> In e0 (edge_of a nodes p) ->
+    exists ni nj, nth_error nodes (fst p) = Some ni /\ nth_error nodes (snd p) = Some nj
+                  /\ (edge_key e' = (ni, nj) \/ edge_key e' = (nj, ni)).
+  Proof.
+    intros [_ Hk] He0. destruct (@edge_of_key a nodes p e0 He0) as (ni & nj & Hni & Hnj & Hk0).
+    exists ni, nj. split; [exact Hni|]. split; [exact Hnj|]. unfold edge_key in *.
+    destruct Hk as [Hk|[_ Hk]]; destruct Hk0 as [Hk0|Hk0]; rewrite Hk; injection Hk0 as -> ->; auto.
+  Qed.
+
+  Lemma loop_any P : forall g,
+    (forall p, In p P -> fst p < snd p /\ snd p < length nodes) -> NoDup P ->
+    (forall x, In x nodes -> In x (node_ids g)) ->
+    (k = TS -> forall x, In x nodes -> has_lag g x) ->
+    time_ok g P -> fresh_pairs g P ->
+    exists g', fold_left (edge_step parse fmt k a nodes) P (Ok g) = Ok g'
+      /\ node_ids g' = node_ids g
+      /\ (forall e', In e' (gsrc g') ->
+            In e' (gsrc g) \/ exists p e0, In p P /\ In e0 (edge_of a nodes p) /\ sim e' e0)
+      /\ (forall e, In e (gsrc g) -> In e (gsrc g'))
+      /\ (forall p e0, In p P -> In e0 (edge_of a nodes p) -> exists e', In e' (gsrc g') /\ sim e' e0).
+  Proof.
+    induction P as [|p P IH]; intros g HP Hnd Hin Hlag Htime Hfresh.
+    - exists g. simpl. repeat split; auto. intros p e0 [].
+    - inversion Hnd as [|? ? Hp Hnd']; subst.
+      destruct (HP p (or_introl eq_refl)) as [Hlt Hj].
+      destruct (@edge_step_any g p Hlt Hj Hin Hlag) as (g1 & es & Hg1 & Hn1 & Hl1 & Hs1 & Hsim).
+      { intros Hk q e0 [<-|[]]. apply (Htime Hk p e0). left; reflexivity. }
+      { intros e q ni nj He [<-|[]]. apply (Hfresh e p ni nj He (or_introl eq_refl)). }
+      cbn [fold_left]. rewrite Hg1.
+      destruct (IH g1) as (g' & Hg' & Hn' & Hfw & Hold & Hnew).
+      + intros q Hq. apply HP. right; exact Hq.
+      + exact Hnd'.
+      + intros x Hx. rewrite Hn1. apply Hin; exact Hx.
+      + intros Hk x Hx. destruct (Hlag Hk x Hx) as [l Hl]. exists l. rewrite Hl1. exact Hl.
+      + intros Hk q e0 Hq He0 Ht. rewrite !Hl1. apply (Htime Hk q e0); [right; exact Hq|exact He0|exact Ht].
+      + intros e q ni' nj' He Hq Hni' Hnj'. rewrite Hs1 in He. apply in_app_iff in He.
+        destruct He as [He|He]; [apply (Hfresh e q); [exact He|right; exact Hq|exact Hni'|exact Hnj']|].
+        destruct (@Forall2_in_left _ _ sim es _ e Hsim He) as (e0 & He0 & Hse).
+        destruct (@sim_joins e e0 p Hse He0) as (ni & nj & Hni & Hnj & Hk).
+        destruct (HP q (or_intror Hq)) as [Hltq Hjq].
+        assert (Hpq : p <> q) by (intros ->; contradiction).
+        split; intros Hkey.
+        * destruct Hk as [Hk|Hk]; rewrite Hk in Hkey; injection Hkey as -> ->.
+          -- apply Hpq. destruct p, q; simpl in *. f_equal; eapply nodup_nth_inj; eassumption.
+          -- assert (snd p = fst q) by (eapply nodup_nth_inj; eassumption).
+             assert (fst p = snd q) by (eapply nodup_nth_inj; eassumption). lia.
+        * destruct Hk as [Hk|Hk]; rewrite Hk in Hkey; injection Hkey as -> ->.
+          -- assert (fst p = snd q) by (eapply nodup_nth_inj; eassumption).
+             assert (snd p = fst q) by (eapply nodup_nth_inj; eassumption). lia.
+          -- apply Hpq. destruct p, q; simpl in *. f_equal; eapply nodup_nth_inj; eassumption.
+      + exists g'. split; [exact Hg'|]. split; [congruence|]. split; [|split].
+        * intros e' He'. destruct (Hfw e' He') as [He1|(q & e0 & Hq & He0 & Hse)].
+          -- rewrite Hs1 in He1. apply in_app_iff in He1. destruct He1 as [He1|He1]; [left; exact He1|].
+             destruct (@Forall2_in_left _ _ sim es _ e' Hsim He1) as (e0 & He0 & Hse).
+             right. exists p, e0. split; [left; reflexivity|]. split; assumption.
+          -- right. exists q, e0. split; [right; exact Hq|]. split; assumption.
+        * intros e He. apply Hold. rewrite Hs1. apply in_app_iff. left; exact He.
+        * intros q e0 [<-|Hq] He0; [|apply (Hnew q e0 Hq He0)].
+          destruct (@Forall2_in_right _ _ sim es _ e0 Hsim He0) as (e' & He' & Hse).
+          exists e'. split; [|exact Hse]. apply Hold. rewrite Hs1. apply in_app_iff. right; exact He'.
+  Qed.
+End AnyLoop.
+
+Lemma node_lag_parse parse g x l :
+  Inv parse TS g -> node_lag g x = Some l -> exists v, parse x = Some (v, l).
+Proof.
+  intros HI H. unfold node_lag, get_node in H.
+  destruct (find_node x (gnodes g)) as [n|] eqn:E; [|discriminate].
+  apply find_node_some_in in E. destruct E as [Hin <-].
+  destruct (ts_nodeok (inv_ts HI eq_refl) n Hin) as (v & l' & Hp & _ & Hl).
+  exists v. rewrite Hp. congruence.
+Qed.
+
+(** C08, both classes: [type(g).from_adjacency_matrix] applied to the results of [g.to_numpy()]
+    (validate=False) succeeds and equals [g]; for a time-series graph no directed entry is
+    refused as pointing backwards in time, and an undirected edge may come back with its
+    endpoints exchanged *)
+Theorem matrix_roundtrip_own_novalidate parse fmt k g a names :
+  Inv parse k g -> to_numpy g = Ok (a, names) ->
+  exists g', from_matrix parse fmt k a (Some names) false = Ok g'
+             /\ node_ids g' = names /\ same_graph g g'.
+Proof.
+  intros HI Hnp. destruct (to_numpy_ok_inv _ Hnp) as (Ha & -> & Honly).
+  pose proof (matrix_shape HI Ha) as Hshape. destruct Hshape as [Hd Hb].
+  set (names := v_node_names g) in *. set (n := length names) in *.
+  assert (Hla : length a = n) by apply Hd.
+  assert (Hnd : NoDup names) by apply (v_node_names_nodup HI).
+  pose proof (matrix_entry HI Ha) as Hentry. fold names in Hentry.
+  unfold from_matrix.
+  assert (Hsq : is_square a = true) by (apply is_square_true_iff; rewrite Hla; exact Hd).
+  rewrite Hsq, (binary_is_binary Hd Hb). cbn [negb].
+  rewrite (proj2 (Nat.eqb_eq (length names) (length a)) (eq_sym Hla)). cbn [bind run_op].
+  destruct (@add_nodes_any parse k names (empty_graph []) Hnd) as (g0 & Hg0 & Hn0 & Hs0 & Hl0 & _ & Hv0).
+  { intros x _ []. }
+  { intros Hk x Hx. apply v_node_names_in in Hx. unfold node_ids in Hx. apply in_map_iff in Hx.
+    destruct Hx as (nd & <- & Hin). rewrite Hk in HI.
+    destruct (ts_nodeok (inv_ts HI eq_refl) nd Hin) as (v & l & Hp & _). exists v, l; exact Hp. }
+  rewrite Hg0. cbn [fst bind]. simpl in Hn0.
+  destruct (@loop_any parse fmt k a names Hnd Hb (pairs n) g0) as (g' & Hg' & Hn' & Hfw & _ & Hnew).
+  - intros [i j] Hp. apply in_pairs in Hp. simpl. unfold n in *. lia.
+  - apply pairs_nodup.
+  - intros x Hx. rewrite Hn0. exact Hx.
+  - exact Hl0.
+  - (* time: a directed edge asked for by the scan is a directed edge of [g] *)
+    intros Hk [i j] e0 Hp He0 Ht. apply in_pairs in Hp. subst k.
+    destruct (@rt_back0 parse TS g a names HI (conj Hd Hb) Hentry i j e0)
+      as [[_ (e & He & Hke & _)]|[Hu _]]; [lia|unfold n in *; lia|exact He0| |congruence].
+    unfold edge_key in Hke. injection Hke as Hes Hed.
+    destruct (ts_time (inv_ts HI eq_refl) e He) as (ls & ld & Hls & Hld & Hle).
+    rewrite Hes in Hls. rewrite Hed in Hld.
+    destruct (node_lag_parse _ HI Hls) as [vs Hps]. destruct (node_lag_parse _ HI Hld) as [vd Hpd].
+    destruct (inv_endpoints HI e He) as [Hse Hde]. rewrite Hes in Hse. rewrite Hed in Hde.
+    exists ls, ld. split; [|split; [|exact Hle]].
+    + apply (Hv0 eq_refl _ vs ls); [apply v_node_names_in; exact Hse|exact Hps].
+    + apply (Hv0 eq_refl _ vd ld); [apply v_node_names_in; exact Hde|exact Hpd].
+  - intros e p ni nj He. rewrite Hs0 in He. destruct He.
+  - fold n. rewrite Hg'. cbn [bind]. exists g'. split; [reflexivity|]. split; [congruence|].
+    apply (@rt_same_graph parse k g a names HI Honly (v_node_names_in g) (conj Hd Hb) Hentry g').
+    + intros e' He'. destruct (Hfw e' He') as [He0|([i j] & e0 & Hp & He0 & Hse)];
+        [rewrite Hs0 in He0; destruct He0|].
+      apply in_pairs in Hp. exists i, j, e0. repeat split; try lia; assumption.
+    + intros i j e0 Hij Hj He0. apply (Hnew (i, j) e0); [apply in_pairs; unfold n in *; lia|exact He0].
+    + intros x. rewrite Hn', Hn0. reflexivity.
+Qed.
 
 (** * Examples: non-vacuity and the behaviour observed on the implementation *)
 From CG Require Import Names.
